@@ -1,0 +1,81 @@
+//go:build verif
+
+package json
+
+import (
+	"os"
+	"strconv"
+	"sync"
+	"time"
+
+	"github.com/valyala/fastjson"
+
+	"github.com/cube2222/octosql/octosql"
+)
+
+// Instrumentation for the verification harness; compiled only with the `verif` build tag.
+
+var verifDelaySeed = func() uint64 {
+	s, err := strconv.ParseUint(os.Getenv("VERIF_WORKER_DELAY_SEED"), 10, 64)
+	if err != nil {
+		return 0
+	}
+	return s
+}()
+
+// VerifSetWorkerDelaySeed switches the seeded parser-job delays on (seed != 0) or off (0) for in-process runs.
+func VerifSetWorkerDelaySeed(seed uint64) { verifDelaySeed = seed }
+
+// verifWorkerDelay sleeps a seeded pseudo-random 0..400 microseconds at the top of a parser job,
+// so that jobs complete in orders the scheduler alone would rarely produce.
+func verifWorkerDelay(line int) {
+	seed := verifDelaySeed
+	if seed == 0 {
+		return
+	}
+	z := seed + uint64(line+1)*0x9E3779B97F4A7C15
+	z = (z ^ (z >> 30)) * 0xBF58476D1CE4E5B9
+	z = (z ^ (z >> 27)) * 0x94D049BB133111EB
+	z ^= z >> 31
+	time.Sleep(time.Duration(z%400) * time.Microsecond)
+}
+
+// Consumer events: kind 0 = a job result was received (line = its first line), kind 1 = `done` was received.
+type VerifEvent struct {
+	Kind int
+	Line int
+}
+
+var verifLogMutex sync.Mutex
+var verifLog []VerifEvent
+var verifLogEnabled bool
+
+func VerifEnableConsumerLog(on bool) {
+	verifLogMutex.Lock()
+	verifLogEnabled = on
+	verifLog = nil
+	verifLogMutex.Unlock()
+}
+
+func VerifTakeConsumerLog() []VerifEvent {
+	verifLogMutex.Lock()
+	defer verifLogMutex.Unlock()
+	out := verifLog
+	verifLog = nil
+	return out
+}
+
+func verifConsumerEvent(kind int, line int) {
+	verifLogMutex.Lock()
+	if verifLogEnabled {
+		verifLog = append(verifLog, VerifEvent{Kind: kind, Line: line})
+	}
+	verifLogMutex.Unlock()
+}
+
+// VerifGetOctoSQLValue and VerifGetOctoSQLType expose the two unexported conversion functions.
+func VerifGetOctoSQLValue(t octosql.Type, value *fastjson.Value) (octosql.Value, bool) {
+	return getOctoSQLValue(t, value)
+}
+
+func VerifGetOctoSQLType(value *fastjson.Value) octosql.Type { return getOctoSQLType(value) }
